@@ -79,6 +79,11 @@ def runMon (f : List String) : String :=
   | some "dr" => monDR c a
   | some "conv" => Conv.monitor pid c a
   | some "sched" => Conv.monitor pid c a
+  | some "lateserve" =>
+    (match a with
+     | [r] => if r == "returned=1;lclosed=1" then "ok"
+              else "bad: C20 Serve on a server that had been (or was being) closed did not return, or left its listener open: " ++ r
+     | _ => "bad: unparsable answer")
   | some "tlsclose" =>
     (match a with
      | [r] =>
@@ -117,6 +122,8 @@ def runCase (line : String) : String :=
   | some "multi" => "same"
   -- the server is ended while a STARTTLS upgrade logs the plaintext session out: the specification — every session exactly one Logout
   | some "tlsclose" => "logouts=1"
+  -- Serve on a server that has been (or is being) closed: it returns and its listener ends up closed
+  | some "lateserve" => "returned=1;lclosed=1"
   | some p => "DRIVER-UNKNOWN-PROBE " ++ p
   | none => "DRIVER-EMPTY"
 
